@@ -861,3 +861,32 @@ def root_defs(r, name_node, depth=0):
         else:
             out.add(i)
     return frozenset(out)
+
+
+NONLINEAR = {'log', 'log2', 'log10', 'log1p', 'exp', 'expm1', 'sqrt', 'square', 'power', 'abs', 'absolute', 'fabs', 'tanh', 'arctanh',
+             'sign', 'clip', 'maximum', 'minimum', 'rankdata', 'reciprocal', 'floor', 'ceil', 'round', 'around', 'rint', 'where'}
+
+
+def mean_first(ctx, obs, q, averagers=('average_dataset_by', '_parse_input'), rule='MEAN-FIRST'):
+    """The estimators are formulas on per-condition MEAN patterns: element-wise non-linear maps (log, sqrt, abs, clip ...) are
+    applied to the means.  Applying one to the observations before they are averaged gives the mean of the logs, not the log of
+    the mean.  Decided on explicit data flow: the dataset handed to the averaging helper must not derive from the result of a
+    non-linear numpy call.  Affine maps (adding a prior, scaling) commute with the mean and are not restricted."""
+    prog = ctx.prog
+    f = prog.func(q)
+    r = ctx.dep.analyze(q, data_only=True)
+    n = 0
+    for c in r.calls:
+        if not any(x.split('.')[-1] in averagers for x in c.callees):
+            continue
+        n += 1
+        src = c.arg(0) or frozenset()
+        bad = sorted(t for t in src if t.startswith('CALL:') and t.split('@')[0].split('.')[-1] in NONLINEAR
+                     and t.split(':', 1)[1].split('.')[0] in ('numpy', 'np', 'scipy'))
+        con = f'the data averaged per condition (`{norm(c.node)[:50]}`) have not been through a non-linear map'
+        if bad:
+            obs.bad(rule, q, con, f'the dataset handed to the averaging step derives from `{bad[0][5:].split("@")[0]}(..)`: the non-linear map is '
+                    f'applied to single observations and then averaged, the estimator is defined on the condition means', where(prog, f, c.node))
+        else:
+            obs.ok(rule, q, con, '', where(prog, f, c.node))
+    return n
